@@ -148,6 +148,46 @@ def _expand_kw_splats(tree):
     return X().visit(tree)
 
 
+def _expand_method_kw_splats(tree):
+    """`f(x, **self._opts())` where _opts is a method of the same class whose body is `return {"k1": e1, ...}` (string keys) reads
+    `f(x, k1=e1, ...)` -- the method form of the keyword bundle handled by _expand_kw_splats (run after private bases are flattened)"""
+    for cls in [n for n in tree.body if isinstance(n, ast.ClassDef)]:
+        helpers = {}
+        for n in cls.body:
+            if isinstance(n, ast.FunctionDef) and len(n.args.args) == 1 and not n.args.vararg and not n.args.kwarg and not n.args.kwonlyargs:
+                body = [b for b in n.body if not (isinstance(b, ast.Expr) and isinstance(b.value, ast.Constant))]
+                if len(body) == 1 and isinstance(body[0], ast.Return) and isinstance(body[0].value, ast.Dict) and body[0].value.keys \
+                        and all(isinstance(k, ast.Constant) and isinstance(k.value, str) and k.value.isidentifier() for k in body[0].value.keys):
+                    helpers[n.name] = (n.args.args[0].arg, body[0].value)
+        if not helpers:
+            continue
+
+        class X(ast.NodeTransformer):
+            def visit_Call(self, node):
+                self.generic_visit(node)
+                new_kw = []
+                for k in node.keywords:
+                    v = k.value
+                    if k.arg is None and isinstance(v, ast.Call) and not v.args and not v.keywords and isinstance(v.func, ast.Attribute) \
+                            and isinstance(v.func.value, ast.Name) and v.func.value.id == "self" and v.func.attr in helpers:
+                        selfname, d = helpers[v.func.attr]
+                        for key, val in zip(d.keys, d.values):
+                            vv = copy.deepcopy(val)
+                            if selfname != "self":
+                                for x in ast.walk(vv):
+                                    if isinstance(x, ast.Name) and x.id == selfname:
+                                        x.id = "self"
+                            new_kw.append(ast.copy_location(ast.keyword(arg=key.value, value=ast.copy_location(vv, v)), k))
+                    else:
+                        new_kw.append(k)
+                node.keywords = new_kw
+                return node
+        for i, n in enumerate(cls.body):
+            if isinstance(n, ast.FunctionDef):
+                cls.body[i] = X().visit(n)
+    return tree
+
+
 class Mod:
     def __init__(self, name, path, src, tree, raw_tree, pruned):
         self.name = name
@@ -270,6 +310,68 @@ class Model:
                 self.pruned_arms += pr.pruned
                 self.mods[name] = Mod(name, rel, src, tree, raw, pr.pruned)
         self._unrename()
+        self._flatten_private_bases()
+        for m in self.mods.values():
+            m.tree = _expand_method_kw_splats(m.tree)
+            ast.fix_missing_locations(m.tree)
+
+    def _flatten_private_bases(self):
+        """A *new* private base class or mixin (`class _BlockLinop(Linop)` holding code shared by Hstack / Vstack / Diag) is a way of writing the subclasses
+        shorter: each subclass is read as if it defined the inherited methods itself (they are copied down, the private base's own bases take
+        its place), and the private base is marked abstract -- it is not an operator / prox / algorithm of its own and the class enumerations
+        of the rules skip it.  Only classes the pinned tree did not have are treated this way (known_sigs.txt lists the pinned ones)."""
+        path = os.path.join(os.path.dirname(os.path.abspath(__file__)), "known_sigs.txt")
+        pinned_classes = set()
+        try:
+            for ln in open(path):
+                if ln.strip() and not ln.startswith("#"):
+                    q = ln.split("|", 1)[0]
+                    parts = q.split(".")
+                    if len(parts) >= 3 and parts[-2][:1].isupper() or (len(parts) >= 3 and parts[-2].startswith("_") and parts[-2][1:2].isupper()):
+                        pinned_classes.add(".".join(parts[:-1]))
+        except OSError:
+            return
+        self.abstract = set()
+        for mname, m in self.mods.items():
+            classes = {n.name: n for n in m.tree.body if isinstance(n, ast.ClassDef)}
+            new_private = {nm for nm in classes if nm.startswith("_") and (mname + "." + nm) not in pinned_classes}
+            if not new_private:
+                continue
+            done = set()
+
+            def flatten(cname):
+                if cname in done:
+                    return
+                done.add(cname)
+                c = classes[cname]
+                new_bases = []
+                for b in c.bases:
+                    if isinstance(b, ast.Name) and b.id in new_private and b.id != cname:
+                        flatten(b.id)
+                        pb = classes[b.id]
+                        own = {x.name for x in c.body if isinstance(x, ast.FunctionDef)} | \
+                            {t.id for x in c.body if isinstance(x, ast.Assign) for t in x.targets if isinstance(t, ast.Name)}
+                        for item in pb.body:
+                            if isinstance(item, ast.FunctionDef) and item.name not in own:
+                                cp = copy.deepcopy(item)
+                                # `Base.helper(...)` spelled with the private base's name refers to the copy in this class
+                                for x in ast.walk(cp):
+                                    if isinstance(x, ast.Attribute) and isinstance(x.value, ast.Name) and x.value.id == b.id:
+                                        x.value.id = cname
+                                c.body.append(cp)
+                            elif isinstance(item, ast.Assign) and all(isinstance(t, ast.Name) and t.id not in own for t in item.targets):
+                                c.body.append(copy.deepcopy(item))
+                        for x in ast.walk(c):
+                            if isinstance(x, ast.Attribute) and isinstance(x.value, ast.Name) and x.value.id == b.id and x is not b:
+                                x.value.id = cname
+                        new_bases.extend(pb.bases)
+                        self.abstract.add(mname + "." + b.id)
+                    else:
+                        new_bases.append(b)
+                c.bases = new_bases or c.bases
+            for cname in list(classes):
+                if cname not in new_private:
+                    flatten(cname)
 
     def _unrename(self):
         """A private helper (function or method, single leading underscore) that an edit has *renamed* is presented under the name the rules were
@@ -551,13 +653,30 @@ class Model:
             raise AnchorMissing("module %s not found" % name)
         return self.mods[name]
 
+    def _moved(self, qual):
+        """a function that an edit has moved to another module and imports back under the same name is still the function the rules mean:
+        `from sigpy._kernels import _spline_kernel` in sigpy/interp.py makes sigpy.interp._spline_kernel that function"""
+        if "." not in qual:
+            return None
+        mod, name = qual.rsplit(".", 1)
+        m = self.mods.get(mod)
+        if m is None:
+            return None
+        tgt = m.imports.get(name)
+        if isinstance(tgt, str) and tgt in self.funcs and tgt != qual:
+            return self.funcs[tgt]
+        return None
+
     def func(self, qual):
         if qual not in self.funcs:
+            f = self._moved(qual)
+            if f is not None:
+                return f
             raise AnchorMissing("function %s not found" % qual)
         return self.funcs[qual]
 
     def has_func(self, qual):
-        return qual in self.funcs
+        return qual in self.funcs or self._moved(qual) is not None
 
     def cls(self, qual):
         if qual not in self.classes:
@@ -585,7 +704,7 @@ class Model:
     def subclasses(self, base_qual, direct_only=False):
         out = []
         for c in self.classes.values():
-            if c.qual == base_qual:
+            if c.qual == base_qual or c.qual in getattr(self, "abstract", ()):
                 continue
             if self.is_subclass(c, base_qual):
                 out.append(c)
